@@ -209,6 +209,9 @@ func genIdentityAccessors(g *G, count int) {
 			b = cat(b, r.bytes(r.rng(1, 6)))
 		}
 		g.emit("destAddr", hx(b), hx(sum[:]))
+		if i%4 == 0 {
+			g.emit("!hashFns", hx(b[:r.pick(0, 1, 31, 32, 33, 55, 56, 63, 64, 65, 119, 120, len(b))]))
+		}
 	}
 }
 
